@@ -298,6 +298,10 @@ func (vm *Vm) runCroak(ctx context.Context, b []byte) ([]byte, error) {
 		logg.InfoCtxf(ctx, "croak! purging and moving to top", "signal", sig)
 		vm.Reset()
 		vm.ca.Reset()
+		// keep one (now empty) cache scope per navigation level
+		for i := 0; i <= vm.st.Depth(); i++ {
+			vm.ca.Push()
+		}
 		b = []byte{}
 	}
 	return b, nil
